@@ -73,7 +73,7 @@ def showState (st : State) : String :=
     | none => "-"
     | some p => s!"{p.sold} {p.claimed} {p.maxSell} {showB p.enabled} {p.startTime} {showB p.settled} {p.vest.amount} {p.vest.claimed} {p.vest.start} {p.vest.stop}"
   let accts := (List.range st.cfg.n).map (fun a => s!"{st.liq a},{st.iro a},{st.ra a}")
-  s!"{ps} | {st.planLiq} {st.modIro} {st.modRa} | {" ".intercalate accts}"
+  s!"{ps} | {st.planLiq} {st.modIro} {st.modRa} o{st.owner} | {" ".intercalate accts}"
 
 def showPid (m : MState) (k : Nat) : String :=
   match slotPlanId m k with
@@ -117,6 +117,7 @@ def parseOp : List String → Option Op
   | ["claim", a] => some (.claim (nat! a))
   | ["claimv", a] => some (.claimv (nat! a))
   | ["xfer", a, b, amt] => some (.xfer (nat! a) (nat! b) (parseInt amt))
+  | ["chown", a, b] => some (.chown (nat! a) (nat! b))
   | _ => none
 
 def splitBar (f : List String) : List String × List String :=
